@@ -10,8 +10,8 @@
 EXTENDS WorldC05, Lang, Json, FiniteSets, TLC
 
 CONSTANTS MaxLimit
-VARIABLES ord, lim, wh, roots, dfs, arch, cc, grp, phase
-vars == <<ord, lim, wh, roots, dfs, arch, cc, grp, phase>>
+VARIABLES ord, lim, wh, roots, dfs, arch, cc, grp, fn2, phase
+vars == <<ord, lim, wh, roots, dfs, arch, cc, grp, fn2, phase>>
 
 K(c, d) == [col |-> c, desc |-> d]
 Orderings == { <<>>, <<K("size", FALSE)>>, <<K("size", TRUE)>>, <<K("name", FALSE)>>,
@@ -23,14 +23,16 @@ ZM(nm) == [name |-> nm, mode |-> 33188, dos |-> <<2017, 5, 1, 10, 20, 30>>, meth
 ZipNode(i, p, nm, members) == N(i, p, "file", nm, <<>>, 420, 0, 0, Day2, 0, -3) @@ [zip |-> members, iszip |-> TRUE]
 W5z == [nodes |-> W5.nodes \o << ZipNode(23, 0, <<"k",".","j","a","r">>, << ZM("a.txt"), ZM("m1"), ZM("z"), ZM("B.log"), ZM("l05"), ZM("zz") >>),
                                   ZipNode(24, 5, <<"j",".","w","a","r">>, << ZM("a2"), ZM("m0"), ZM("m1"), ZM("0"), ZM("zq") >>) >>]
-Init == ord = <<>> /\ lim = 0 /\ wh = FALSE /\ roots = 1 /\ dfs = FALSE /\ arch = FALSE /\ cc = FALSE /\ grp = FALSE /\ phase = "start"
+Init == ord = <<>> /\ lim = 0 /\ wh = FALSE /\ roots = 1 /\ dfs = FALSE /\ arch = FALSE /\ cc = FALSE /\ grp = FALSE /\ fn2 = FALSE /\ phase = "start"
 Choose == /\ phase = "start"
           \* grp: a grouped query (one row per extension), optionally ordered by the key; rows judged as texts like the archive kind
           /\ \/ arch' = FALSE /\ grp' = FALSE /\ ord' \in Orderings
              \/ arch' = TRUE /\ grp' = FALSE /\ ord' \in ArchOrderings
              \/ arch' = FALSE /\ grp' = TRUE /\ ord' \in { <<>>, <<K("ext", FALSE)>>, <<K("ext", TRUE)>> }
           \* cc: a constant column next to the file column (no implicit `limit 1`: that is for select lists without any file column)
-          /\ lim' \in 0 .. MaxLimit /\ cc' \in (IF lim' \in {0, 1, 3} /\ ~grp' THEN BOOLEAN ELSE {FALSE}) /\ wh' \in BOOLEAN /\ roots' \in {1, 2} /\ dfs' \in BOOLEAN
+          /\ lim' \in 0 .. MaxLimit /\ cc' \in (IF lim' \in {0, 1, 3} /\ ~grp' THEN BOOLEAN ELSE {FALSE}) \* fn2: the file column reaches the select list only as the second argument of a function (`concat('', path)` is the path)
+          /\ fn2' \in (IF lim' \in {0, 1, 3} /\ ~grp' /\ ~arch' /\ ~cc' THEN BOOLEAN ELSE {FALSE})
+          /\ wh' \in BOOLEAN /\ roots' \in {1, 2} /\ dfs' \in BOOLEAN
           /\ phase' = "done"
 Next == Choose
 Spec == Init /\ [][Next]_vars
@@ -43,7 +45,7 @@ WhereAtom == IF arch THEN A1("name", "like", TextL(<<"%","z","%">>), "") ELSE A1
 WhereText == IF wh THEN " where " \o CondText(WhereAtom) ELSE ""
 Mode == (IF arch THEN " archives" ELSE "") \o (IF dfs THEN " dfs" ELSE "")
 FromText == IF roots = 1 THEN " from '.'" \o Mode ELSE " from 'd1'" \o Mode \o ", 'h'" \o Mode
-Base == (IF grp THEN "select ext, count(*)" ELSE IF arch THEN "select name" ELSE "select path") \o (IF cc THEN ", 1 + 1" ELSE "") \o FromText \o WhereText
+Base == (IF grp THEN "select ext, count(*)" ELSE IF arch THEN "select name" ELSE IF fn2 THEN "select concat('', path)" ELSE "select path") \o (IF cc THEN ", 1 + 1" ELSE "") \o FromText \o WhereText
         \o (IF grp THEN " group by ext" ELSE "")
 Query == Base \o (IF ord = <<>> THEN "" ELSE " order by " \o OrderText(1)) \o " limit " \o ToString(lim) \o " into list"
 
@@ -51,7 +53,7 @@ RECURSIVE KeysClass(_)
 KeysClass(i) == IF i > Len(ord) THEN "" ELSE (IF i > 1 THEN "," ELSE "") \o ord[i].col \o (IF ord[i].desc THEN "-" ELSE "+") \o KeysClass(i + 1)
 Scenario == [prop |-> "C06", world |-> IF arch THEN "W5z" ELSE "W5", arch |-> (arch \/ grp),
              class |-> (IF arch THEN "archives/" ELSE IF grp THEN "grouped/" ELSE "") \o (IF ord = <<>> THEN "unordered" ELSE "ordered=" \o KeysClass(1)) \o "/roots=" \o ToString(roots)
-                       \o (IF dfs THEN "/dfs" ELSE "/bfs") \o (IF wh THEN "/where" ELSE "") \o (IF lim = 0 THEN "/limit0" ELSE "") \o (IF cc THEN "/constant-column" ELSE ""),
+                       \o (IF dfs THEN "/dfs" ELSE "/bfs") \o (IF wh THEN "/where" ELSE "") \o (IF lim = 0 THEN "/limit0" ELSE "") \o (IF cc THEN "/constant-column" ELSE "") \o (IF fn2 THEN "/column-as-second-argument" ELSE ""),
              keys |-> ord, limit |-> lim, prefix |-> IF roots = 1 THEN "./" ELSE "",
              env |-> [tz |-> "UTC", cwd |-> 0],
              runs |-> << [tag |-> "all", ncols |-> IF cc \/ grp THEN 2 ELSE 1, chars |-> (arch \/ grp), argv |-> << Base \o " into list" >>],
